@@ -22,6 +22,16 @@ def run(tier, seed):
     cov["transitions"] += nl
     cov["traces_validated_against_impl"] += nl
     cov["evaluations"] += nl
+    # every single-byte edit / truncation of C02's corpus, judged for the verdict (character-level neighbours of valid scripts)
+    from . import c02
+    rb = pool.run_tasks("checks.c02:byte_task", [(i, False, False, "c01") for i in range(len(c02.CORPUS))])
+    nb = sum(r["n"] for r in rb)
+    for r in rb:
+        viols.extend(v for v in r["violations"] if v["property"] == "C01")
+    cov["transitions"] += nb
+    cov["traces_validated_against_impl"] += nb
+    cov["evaluations"] += nb
+    cov["byte_edits"] = dict(corpus=len(c02.CORPUS), executions=nb, edit_bytes=len(c02.EDIT_BYTES))
     cov["size_ladder"] = dict(sizes=c03.ladder_sizes(tier), line_lengths=[8], modes=["bytes", "file"], executions=nl)
     return dict(violations=viols, coverage=cov, harness_errors=harness, assumptions=PC.ASSUMPTIONS)
 
